@@ -826,7 +826,7 @@ pub fn run(tier: &Tier, args: &[String]) -> i32 {
     ];
     let qdepth = crate::report::arg_value(args, "--qdepth")
         .and_then(|d| d.parse().ok())
-        .unwrap_or(if tier.thorough { 7 } else { 5 });
+        .unwrap_or(if tier.thorough { 10 } else { 5 });
     let t0 = std::time::Instant::now();
     let q = queue_bfs(qdepth, !tier.thorough);
     eprintln!(
@@ -841,7 +841,7 @@ pub fn run(tier: &Tier, args: &[String]) -> i32 {
         });
     }
     let t1 = std::time::Instant::now();
-    let tdepth = if tier.thorough { 6 } else { 5 };
+    let tdepth = if tier.thorough { 10 } else { 5 };
     let (ts, tt, tsamples, tviol, startup_hist) = taskqueue_bfs(tdepth);
     eprintln!(
         "[C09b] taskqueue BFS depth {} states={} transitions={} startups-by-running={:?} {:.1}s",
@@ -857,7 +857,7 @@ pub fn run(tier: &Tier, args: &[String]) -> i32 {
     // (c) world
     let depth = crate::report::arg_value(args, "--depth")
         .and_then(|d| d.parse().ok())
-        .unwrap_or(if tier.thorough { 5 } else { 4 });
+        .unwrap_or(if tier.thorough { 8 } else { 4 });
     let cap = crate::report::arg_value(args, "--cap")
         .and_then(|d| d.parse().ok())
         .unwrap_or(if tier.thorough { 900 } else { 45 });
